@@ -387,7 +387,7 @@ def judge_history(ctx, h, res, pm):
         out["steps"] += nsteps
         if rel:
             out["related_sites"] = out.get("related_sites", 0) + len([b for b in bad if b["element"] in rel])
-            bad = [b for b in bad if b["element"] not in rel]
+            bad = drop_related(bad, rel)
         bad, fnd, excluded = attribute(bad, before, after, plan["use"], plan["save"], runs[s]["warn"], phases, extra, "simulation %d" % s)
         excluded |= rel
         for f in fnd:
@@ -485,6 +485,15 @@ def _formula_elements(f):
     if f not in _FE:
         _FE[f] = {k: Fraction(v).limit_denominator(10**9) for k, v in dbparse.formula_elements(f).items()}
     return _FE[f]
+
+
+def drop_related(bad, rel):
+    """sites of an exchanger/surface tied to a phase or kinetic reactant are created and removed with it by design, together
+    with the H/OH that compensates the bare site formula (X-, Hfo_wOH): the site element is not judged, and an H or O
+    imbalance is attributed to this only up to twice the observed change of the site amount"""
+    dsites = sum(abs(b["diff"]) for b in bad if b["element"] in rel)
+    return [b for b in bad if b["element"] not in rel and
+            not (b["element"] in ("H", "O") and abs(b["diff"]) <= 2 * dsites * (1 + 1e-6))]
 
 
 def attribute(bad, before, after, use, save, warn, phases, extra, where):
@@ -639,10 +648,13 @@ def judge_drive(ctx, h, res, pm):
         if rc_step == 3:
             out["massbalance"] += 1
         else:
+            G = next((l for l in lines if l.startswith("G")), "G")
+            gross = {unhx(p.split(":")[0]): float(frac(p.split(":")[1])) for p in G.split(" ")[1:]}
             for el in sorted(set(mod) | set(eng)):
                 a_, b_ = float(mod.get(el, 0)), eng.get(el, 0.0)
                 out["assemble_cmp"] += 1
-                if abs(a_ - b_) > 1e-11 * max(abs(a_), abs(b_)) + 1e-24:
+                # doubles: 1e-11 of the value + cancellation noise relative to the magnitudes that were summed
+                if abs(a_ - b_) > 1e-11 * max(abs(a_), abs(b_)) + 1e-13 * gross.get(el, 0.0) + 1e-24:
                     out["problems"].append(("assemble", "step %d: total of %s handed to the solver: engine %.17g model %.17g" % (k, el, b_, a_), 1))
             for name, line, toks in (("pure phase", P, sect["pp"]), ("solid-solution component", S, sect["ss"])):
                 mm = [float(frac(x)) for x in line.split(" ")[1:]]
@@ -668,7 +680,7 @@ def judge_drive(ctx, h, res, pm):
                     elif w[7] == "1" and scale > 0:
                         out["worst"] = max(out["worst"], abs(diff) / scale)
             out["steps"] += 1
-            bad = [b for b in bad if b["element"] not in rel]
+            bad = drop_related(bad, rel)
             bad, fnd, _ = attribute(bad, before, after, use2, use2, warn, phases, extra, "driven step %d" % k)
             out["findings"] += [f + (1,) for f in fnd]
             if bad and "kinetics" in use2 and any(b["before"] + b["added"] < -1e-15 for b in bad):
